@@ -60,9 +60,9 @@ def load_known_findings():
 
 
 def registry():
-    import c_path, c_core, c_mem, c_wrap
+    import c_path, c_core, c_mem, c_wrap, c_std
     reg = {}
-    for mod in (c_path, c_core, c_mem, c_wrap):
+    for mod in (c_path, c_core, c_mem, c_wrap, c_std):
         reg.update(mod.PROPS)
     return reg
 
